@@ -330,6 +330,7 @@ DbOptions::~DbOptions() {
 }
 void DbOptions::set(const Config &c, bool create) {
   o.create_if_missing = create;
+  o.info_log = default_info_log ? NULL : logger;
   o.write_buffer_size = c.wbs; o.max_file_size = c.mfs; o.block_size = c.block; o.block_restart_interval = c.restart;
   o.compression = c.comp ? LDB_SNAPPY_COMPRESSION : LDB_NO_COMPRESSION;
   o.max_open_files = c.mof; o.use_mmap = c.mmap; o.reuse_logs = c.reuse; o.paranoid_checks = c.paranoid;
